@@ -319,6 +319,13 @@ class Record:
         self.fields = [Field(c, self) for c in node.get('inner', []) if c.get('kind') == 'FieldDecl']
         # member functions of the nested record that have a body (inlined on the object they are called on)
         self.methods = {}
+        # a user-written destructor that does something (scope guard): run at scope exit, which the engine does not model
+        self.dtor_body = None
+        for c in node.get('inner', []):
+            if c.get('kind') == 'CXXDestructorDecl' and not c.get('isImplicit'):
+                body = next((x for x in c.get('inner', []) if x.get('kind') == 'CompoundStmt'), None)
+                if body is not None and [x for x in body.get('inner', []) if isinstance(x, dict) and x.get('kind')]:
+                    self.dtor_body = body
         for c in node.get('inner', []):
             if c.get('kind') == 'CXXMethodDecl' and not c.get('isImplicit') and any(x.get('kind') == 'CompoundStmt' for x in c.get('inner', [])):
                 self.methods[c['id']] = c
@@ -436,6 +443,24 @@ class Program:
         for o in objs:
             if o.get('kind') in ('NamespaceDecl', 'CXXRecordDecl', 'ClassTemplateDecl', 'ClassTemplateSpecializationDecl'):
                 constants(o)
+
+        # classes of the library (at any depth) whose user-written destructor does something: scope guards
+        self.dtor_classes = set()
+
+        def find_dtors(n, depth=0):
+            if not isinstance(n, dict) or depth > 8:
+                return
+            if n.get('kind') == 'CXXRecordDecl' and n.get('name'):
+                for c in n.get('inner', []) or []:
+                    if isinstance(c, dict) and c.get('kind') == 'CXXDestructorDecl' and not c.get('isImplicit'):
+                        body = next((x for x in c.get('inner', []) if isinstance(x, dict) and x.get('kind') == 'CompoundStmt'), None)
+                        if body is not None and [x for x in body.get('inner', []) if isinstance(x, dict) and x.get('kind')]:
+                            self.dtor_classes.add(n['name'])
+            for c in n.get('inner', []) or []:
+                if isinstance(c, dict) and c.get('kind') in ('NamespaceDecl', 'CXXRecordDecl', 'ClassTemplateDecl', 'ClassTemplateSpecializationDecl'):
+                    find_dtors(c, depth + 1)
+        for o in objs:
+            find_dtors(o)
 
         def collect(ns):
             for c in ns.get('inner', []) or []:
